@@ -143,7 +143,7 @@ class PlanGenerationResult(Result):
     metrics: Optional[Dict[str, str]] = field(default=None)
     log_messages: Optional[List[LogMessage]] = field(default=None)
 
-    def __post__init(self):
+    def __post_init__(self):
         # Checks that plan and status are consistent
         if self.status in POSITIVE_OUTCOMES and self.plan is None:
             raise UPUsageError(
